@@ -834,6 +834,52 @@ func ruleExtremeFold(r *Report) {
 				if cmp != nil && (fromCall(cmp.X) && fromCall(cmp.Y) || (cmpBest != nil && !isBest(cmp.X) && !isBest(cmp.Y))) {
 					ok, bad = false, cmp // the block's result is compared, but not with the extreme so far
 				}
+				// with a result in this block and an extreme already found, whether the result replaces
+				// the extreme depends on a third thing (the comparison, wherever it is made): the store
+				// is reachable on some path and avoidable on another (`hit && !ok` never replaces it
+				// again, plain `hit` always does)
+				{
+					isFoundCell := func(v ssa.Value) bool {
+						ld, isLd := v.(*ssa.UnOp)
+						if !isLd || ld.Op != token.MUL {
+							return false
+						}
+						b, isB := ld.Type().Underlying().(*types.Basic)
+						return isB && b.Kind() == types.Bool
+					}
+					reach, feas := feasibleUnder(c.Parent(), func(v ssa.Value) (bool, bool) {
+						switch {
+						case v == hit || norm(v) == hit:
+							return true, true
+						case isFoundCell(v):
+							return true, true
+						}
+						return false, false
+					})
+					avoidable := false
+					seen := map[*ssa.BasicBlock]bool{}
+					var dfs func(b *ssa.BasicBlock)
+					dfs = func(b *ssa.BasicBlock) {
+						if seen[b] || b == st.Block() {
+							return
+						}
+						seen[b] = true
+						if len(b.Instrs) > 0 {
+							if _, isRet := b.Instrs[len(b.Instrs)-1].(*ssa.Return); isRet {
+								avoidable = true
+							}
+						}
+						for _, s2 := range b.Succs {
+							if feas[cfgEdge{b, s2}] {
+								dfs(s2)
+							}
+						}
+					}
+					dfs(call.Block()) // from where the block's result is known
+					if !reach[st.Block()] || !avoidable {
+						ok, bad = false, ins
+					}
+				}
 				if cmp == nil {
 					return
 				}
